@@ -15,12 +15,15 @@ def ranks(tier):
 
 
 class ArrayOpSpec(FuncSpec):
-    props = ("C01", "C12", "C17", "C16")
+    props = ("C01", "C12", "C17", "C16", "C03")
     explicit = (ValueError, TypeError, NotImplementedError, IndexError)
-    prop_obligations = {"C16": ("builds-without-executing",)}
+    # clauses contributed to properties other than the contract's own: the effect clause to C16, the live-memory
+    # clauses of the interpreted block function to C03
+    prop_obligations = {"C16": ("builds-without-executing",), "C03": (".mem:",)}
 
     def install(self, c):
         gb.install(c)
+        c.meter_memory = True  # GB.mem: live array data of the block function fits projected_mem - reserved_mem
 
     def raises(self, c, a, k, e: PyExc):
         # C17: explicit error types at build time are an allowed way to decline; which inputs are declined is
@@ -59,7 +62,7 @@ class ArrayOpSpec(FuncSpec):
 @register
 class Repeat(ArrayOpSpec):
     """repeat(x, repeats, axis): result[.., j, ..] == x[.., j // repeats, ..]"""
-    quick_props = ('C01', 'C17', 'C12', 'C16')
+    quick_props = ('C01', 'C17', 'C12', 'C16', 'C03')
 
     target = f"{MF}:repeat"
 
@@ -157,7 +160,7 @@ class Elemwise(ArrayOpSpec):
     """elemwise(f, x, y, dtype=): operands of equal or broadcastable shapes, *chunked independently of each other*:
     result[g] == f(x[g'], y[g'']) with NumPy's broadcasting of the global index; every task receives argument blocks
     of broadcast-compatible shapes (the operands are brought to a common block structure first)."""
-    quick_props = ('C01', 'C17', 'C12')
+    quick_props = ('C01', 'C17', 'C12', 'C03')
 
     target = "cubed.core.ops:elemwise"
 
